@@ -466,6 +466,9 @@ func pedReshare(x *hx.Ctx, c reshCfg) {
 	case "plus1":
 		newMembers = append(newMembers, ms[:c.n0]...)
 		newMembers = append(newMembers, fresh())
+	case "plus2":
+		newMembers = append(newMembers, ms[:c.n0]...)
+		newMembers = append(newMembers, fresh(), fresh())
 	case "minus1":
 		newMembers = append(newMembers, ms[:c.n0-1]...)
 	case "disjoint":
@@ -509,6 +512,21 @@ func pedReshare(x *hx.Ctx, c reshCfg) {
 		return ct
 	}
 	bad := ms[c.who]
+	// "false-complaints": the dealer c.who is honest; the last kc members of the new group (as many as the new threshold
+	// tolerates, fewer than t1) falsely complain about its deal
+	complainer := map[*member]bool{}
+	if c.fault == "false-complaints" {
+		kc := n1 - c.t1
+		if kc > c.t1-1 {
+			kc = c.t1 - 1
+		}
+		for j := n1 - 1; j >= 0 && len(complainer) < kc; j-- {
+			if newMembers[j] != bad {
+				complainer[newMembers[j]] = true
+			}
+		}
+		x.Outcome("false complainers", len(complainer))
+	}
 	victim := newMembers[(c.who+1)%n1]
 	if victim == bad {
 		victim = newMembers[(c.who+2)%n1]
@@ -557,6 +575,18 @@ func pedReshare(x *hx.Ctx, c reshCfg) {
 		if m == bad && c.fault == "absent" {
 			continue
 		}
+		if complainer[m] {
+			rs := []dkg.Response{{DealerIndex: uint32(c.who), Status: dkg.Complaint}}
+			if c.fast {
+				for d := 0; d < c.n0; d++ {
+					if d != c.who {
+						rs = append(rs, dkg.Response{DealerIndex: uint32(d), Status: dkg.Success})
+					}
+				}
+			}
+			r = &dkg.ResponseBundle{ShareIndex: uint32(m.newIdx), Responses: rs, SessionID: nonce}
+			r.Signature = signAs(m, r)
+		}
 		if r != nil {
 			rresps = append(rresps, r)
 		}
@@ -599,13 +629,23 @@ func pedReshare(x *hx.Ctx, c reshCfg) {
 	var ref *dkg.Result
 	var shares []*share.PriShare
 	for _, m := range newMembers {
-		if m == bad && c.fault != "none" {
+		if m == bad && c.fault != "none" && c.fault != "false-complaints" {
+			continue
+		}
+		if complainer[m] {
 			continue
 		}
 		r := results[m]
 		// completion is required when enough compliant members remain on both sides
 		badInNew, badCount := 0, 0
-		if c.fault != "none" {
+		if c.fault == "false-complaints" {
+			badInNew = len(complainer)
+			for cm := range complainer {
+				if cm.oldIdx >= 0 {
+					badCount++
+				}
+			}
+		} else if c.fault != "none" {
 			badCount = 1
 			if bad.newIdx >= 0 && c.fault != "badshare-justified" {
 				badInNew = 1
@@ -618,6 +658,15 @@ func pedReshare(x *hx.Ctx, c reshCfg) {
 		}
 		if r == nil {
 			continue
+		}
+		if c.fault == "false-complaints" && len(complainer) < c.t1 && bad.newIdx >= 0 {
+			in := false
+			for _, q := range r.QUAL {
+				if int(q.Index) == bad.newIdx {
+					in = true
+				}
+			}
+			x.Require(fmt.Sprintf("new member %d: honest dealer %d with %d < t1 false complaints stays in QUAL", m.newIdx, c.who, len(complainer)), in, qualString(r.QUAL))
 		}
 		if ref == nil {
 			ref = r
